@@ -42,7 +42,16 @@ func ValidateAgainstSchema(chrt *chart.Chart, values map[string]interface{}) err
 	slog.Debug("number of dependencies in the chart", "dependencies", len(chrt.Dependencies()))
 	// For each dependency, recursively call this function with the coalesced values
 	for _, subchart := range chrt.Dependencies() {
-		subchartValues := values[subchart.Name()].(map[string]interface{})
+		raw, exists := values[subchart.Name()]
+		if !exists || raw == nil {
+			// no values for this subchart (coalesced values always have the key): nothing to validate
+			continue
+		}
+		subchartValues, ok := raw.(map[string]interface{})
+		if !ok {
+			sb.WriteString(fmt.Sprintf("%s:\ninvalid type for values: expected a table, got %T\n", subchart.Name(), raw))
+			continue
+		}
 		if err := ValidateAgainstSchema(subchart, subchartValues); err != nil {
 			sb.WriteString(err.Error())
 		}
